@@ -135,7 +135,7 @@ class ExprMixin:
                 # pointer to an element nested in a container: pass a copy, write it back after the call
                 # (CBMC 6.11 pitfall, DESIGN §2 item 8); same semantics unless the callee keeps the pointer
                 t = self.tyq(core['type']); tn = self.tmp('ref')
-                self.wb.append((t.c, tn, lv)); self.rules['nested-element-ref-arg-by-copy'] += 1
+                self.wb.append((t.c, tn, lv, bool(pty is not None and pty.const))); self.rules['nested-element-ref-arg-by-copy'] += 1
                 return '&' + tn
             return self.addr(lv)
         # rvalue bound to a reference: materialise a temporary
@@ -302,6 +302,15 @@ class ExprMixin:
             self.rules['static-local-object'] += 1
             self.dropped['one-time construction of function-local static object'] += 1
             return '%s %s; /* function-local static object */' % (t.c, cn)
+        if t.kind == 'rec':
+            # constant record: its initialiser through the ordinary expression rules
+            save = (self.vars, self.pre); self.vars = {}; self.pre = []
+            try:
+                v = self.expr(init, rvalue=True)
+                if self.pre: raise Unsupported('static constant record %s needs statements to initialise' % cn)
+            finally: self.vars, self.pre = save
+            self.rules['static-constant-record'] += 1
+            return '#define %s (%s)' % (cn, v)
         core = self.skip(init)
         il = None
         for a in core.get('inner', []):
@@ -400,7 +409,7 @@ class ExprMixin:
             return '(%s, %s)' % (self.expr(l), self.expr(r))
         lt = self.tyq(l['type'])
         if op == '=' and lt.kind in ('vec', 'uset', 'umap', 'list') :
-            return '(%s = %s)' % (self.expr(l), self.expr(r))
+            return self.assign_rhs_first(l, r, lt)
         return '(%s %s %s)' % (self.expr(l), op, self.expr(r))
 
     def e_CompoundAssignOperator(self, n):
@@ -509,6 +518,14 @@ class ExprMixin:
             if len(args2) == 2 and t.elem.kind == 'scalar':
                 self.rules['vector(n,value)'] += 1
                 return '%s_filled((size_t)%s, %s)' % (t.c, self.expr(args2[0]), self.expr(args2[1]))
+            if len(args2) == 1 and self.skip(args2[0]).get('kind') == 'CXXStdInitializerListExpr':
+                il = self.skip(self.skip(args2[0])['inner'][0])
+                els = il.get('inner', []) if il.get('kind') == 'InitListExpr' else None
+                if els is not None and self.inline_checks == 0:
+                    tn = self.tmp('il'); self.pre.append('%s %s = %s_new();' % (t.c, tn, t.c))
+                    for e in els: self.pre.append('%s_push_back(&%s, %s);' % (t.c, tn, self.expr(e, rvalue=True)))
+                    self.rules['vector{initializer list}'] += 1
+                    return tn
             raise Unsupported('vector constructor with %d args at %s' % (len(args2), self.where(n)))
         if t.kind in ('uset', 'umap'):
             args2 = [a for a in args if a.get('kind') != 'CXXDefaultArgExpr']
@@ -540,7 +557,7 @@ class ExprMixin:
                     if self.is_lv(a0):
                         atxt.append(self.addr(self.expr(a0)))
                     else:
-                        tn = self.tmp('arg'); self.pre.append('%s %s = %s;' % (at.c, tn, self.expr(a))); atxt.append('&' + tn)
+                        tn = self.tmp('arg'); self.pre.append('%s %s = %s;' % (at.c, tn, ('{0}' if at.kind == 'opaque' and self.skip(a).get('kind') == 'CXXNullPtrLiteralExpr' else self.expr(a)))); atxt.append('&' + tn)
                     ptxt.append('const %s* a%d' % (at.c, i))
                 else:
                     atxt.append(self.expr(a, rvalue=True)); ptxt.append('%s a%d' % (at.c, i))
@@ -621,7 +638,7 @@ class ExprMixin:
         wb = self.wb or []; self.wb = None
         if not wb: return call
         rt = self.ret_type(d)
-        decl = ' '.join('%s %s = %s;' % (c, tn, lv) for c, tn, lv in wb); back = ' '.join('%s = %s;' % (lv, tn) for c, tn, lv in wb)
+        decl = ' '.join('%s %s = %s;' % (c, tn, lv) for c, tn, lv, ro in wb); back = ' '.join('%s = %s;' % (lv, tn) for c, tn, lv, ro in wb if not ro)   # const reference parameters are not written back
         if rt.kind == 'void': return '({ %s %s; %s (void)0; })' % (decl, call, back)
         if rt.ref and (not rt.const or self.big(rt)): raise Unsupported('reference result of a call with nested-element reference arguments')
         return '({ %s %s r_ = %s; %s r_; })' % (decl, rt.c, call, back)
@@ -632,12 +649,18 @@ class ExprMixin:
         out = []
         for i, p in enumerate(ps):
             if i < len(args) and args[i].get('kind') != 'CXXDefaultArgExpr':
-                out.append(self.as_arg(args[i], self.param_storage(p)))
+                out.append(self.as_arg(args[i], self.param_storage(p), self.tyq(p['type'])))
             else:
                 init = [c for c in p.get('inner', []) if c.get('kind') not in ('FullComment',)]
                 if not init: raise Unsupported('missing default argument for %s' % p.get('name'))
                 self.rules['default-argument'] += 1
-                out.append(self.expr(init[0]))
+                if self.param_storage(p) == 'ptr':
+                    # default argument bound to a reference parameter: materialise it
+                    pt = self.tyq(p['type']); tn = self.tmp('dflt')
+                    self.pre.append('%s %s = %s;' % (pt.c, tn, self.expr(init[0], rvalue=True)))
+                    out.append('&' + tn)
+                else:
+                    out.append(self.expr(init[0]))
         return out
 
     def e_CallExpr(self, n, rvalue=False):
@@ -736,11 +759,11 @@ class ExprMixin:
         if name == 'operator=' and d is not None and (d.get('isImplicit') or d.get('explicitlyDefaulted')):
             # implicit / defaulted copy or move assignment of a record = C struct assignment
             self.rules['implicit-assignment-as-struct-copy'] += 1
-            return '(%s = %s)' % (self.expr(args[0]), self.expr(args[1], rvalue=True))
+            return self.assign_rhs_first(args[0], args[1], self.etype(args[0]))
         if name == 'operator=' and d is None and len(args) == 2:
             lt = self.etype(args[0])
             if lt.kind in ('sv', 'opt', 'pair', 'vec', 'uset', 'umap'):
-                return '(%s = %s)' % (self.expr(args[0]), self.expr(args[1], rvalue=True))
+                return self.assign_rhs_first(args[0], args[1], lt)
         if d is not None and d.get('kind') == 'CXXMethodDecl' and not self.is_external(d):
             owner = self.owner_record(d)
             if owner is not None and self.record_mode(owner) == 'transparent':
